@@ -45,10 +45,17 @@ def items(tier, seed):
         out.append(Item("C02", "cold_inverse", dict(family=6, cfg=cfg), budget_s=600, obligation="H1-cold-inverse-v6"))
     out.append(Item("C02", "match_level", dict(family=6, cfg=dict(prefixes=None, networks=None, B=8)), budget_s=600, obligation="H3-match-level-v6"))
     for cfg in _warm_cfgs(tier):
-        out.append(Item("C02", "warm_inverse", dict(family=4, cfg=cfg, k=1), budget_s=500 if tier == "quick" else 2400, obligation="H2-warm-inverse-v4"))
+        for d in (0, 1):
+            for lo, hi in ipc.shards(33, 3):
+                out.append(Item("C02", "warm_inverse", dict(family=4, cfg=cfg, k=1, dirs=[d], ms=[lo, hi]), budget_s=500 if tier == "quick" else 2400, obligation="H2-warm-inverse-v4"))
     if tier == "thorough":
-        out.append(Item("C02", "warm_inverse", dict(family=4, cfg=dict(prefixes=[], networks=None, B=8), k=2), budget_s=3000, obligation="H2-warm-inverse-v4"))
-        out.append(Item("C02", "warm_inverse", dict(family=6, cfg=dict(prefixes=None, networks=None, B=8), k=1), budget_s=3000, obligation="H2-warm-inverse-v6"))
+        for d1 in (0, 1):
+            for d2 in (0, 1):
+                for lo, hi in ipc.shards(33, 4):
+                    out.append(Item("C02", "warm_inverse", dict(family=4, cfg=dict(prefixes=[], networks=None, B=8), k=2, dirs=[d1, d2], ms=[lo, hi]), budget_s=3000, obligation="H2-warm-inverse-v4"))
+        for d in (0, 1):
+            for lo, hi in ipc.shards(129, 8):
+                out.append(Item("C02", "warm_inverse", dict(family=6, cfg=dict(prefixes=None, networks=None, B=8), k=1, dirs=[d], ms=[lo, hi]), budget_s=3000, obligation="H2-warm-inverse-v6"))
     return out
 
 
@@ -129,13 +136,16 @@ def warm_inverse(item, res):
         image_bv = ipc.out_bv(image, W)
         dirs, xs = [], []
         for i in range(k):
-            d = ex_.choice(2, "direction")
+            dsel = item.params.get("dirs")
+            d = dsel[i] if dsel else ex_.choice(2, "direction")
             # the warm-up address is arbitrary: exhaustive case split on the number of leading bits it shares with the
             # value the later inverse will be compared against (a for an anonymize request, the image for an undo)
-            mm = ex_.choice(W + 1, "shared-prefix")
+            lo_, hi_ = item.params.get("ms", [0, W + 1]) if i == 0 else (0, W + 1)
+            mm = lo_ + ex_.choice(hi_ - lo_, "shared-prefix")
             x = ipc.related(a if d == 0 else image_bv, mm, "x%d_free" % i, W)
             dirs.append("ad"[d])
             xs.append(x)
+            ex_.path_data["reqs"] = (list(dirs), list(xs))
             (Y.anonymize if d == 0 else Y.deanonymize)(SInt.unsigned(x) if not z3.is_bv_value(x) else x.as_long())
         r = Y.deanonymize(image)
         res["finals"] += 1
@@ -149,7 +159,8 @@ def warm_inverse(item, res):
     harness.add_stats(res, ex)
     for p in paths:
         if p.exc is not None and p.model is not None:
-            found.append((p.model, [], []))
+            dirs_, xs_ = p.extra.get("reqs", ([], []))
+            found.append((p.model, dirs_, xs_))
     nval = 0
     for p in paths[::max(1, len(paths) // 30)]:
         if p.model is None or p.exc is not None:
